@@ -163,7 +163,13 @@ func (w *FileWriter) generateImports(info *GenerationInfo) []string {
 			case "trim", "lowercase", "uppercase":
 				needsStrings = true
 			case "regex":
-				needsRegexp = true
+				// Only when the call is written: gozod.Enum(...) takes no
+				// Regex (enumRuleApplies), and a regex rule without a
+				// parameter or on a field that is not a string writes nothing.
+				onEnum := findEnumRule(field.Rules) != nil && isStringType(field.Type)
+				if !onEnum && generateValidatorChain(rule, field.Type) != "" {
+					needsRegexp = true
+				}
 			case "uuid":
 				// UUID validation doesn't need additional imports
 			case "url":
